@@ -238,7 +238,7 @@ class C10(Prop):
         stop_kind = "graceful"
         nil_stops = {e.get("n") for e in log if e["k"] == "ret" and e.get("b") == "nil"
                      and e.get("a") in ("stop", "stopwait", "force")}
-        starts, last_stop, found = 0, None, False
+        starts, last_stop, found, last_id = 0, None, False, None
         for e in log[:free]:
             if e["k"] == "call" and e.get("a") == "start":
                 starts, last_stop = starts + 1, None
@@ -246,9 +246,19 @@ class C10(Prop):
                 starts -= 1
             elif e["k"] == "call" and e.get("n") in nil_stops:
                 last_stop = "force" if e.get("a") == "force" else "graceful"
+                last_id = e.get("n")
             elif e["k"] == "st" and e.get("a") == "Running" and starts == 0 and last_stop:
                 stop_kind, found = last_stop, True
                 break
+        # the stop overlapped the death of the run: issued while the run was live, it took effect only after the
+        # cleanup had classified the run (Recovering written before the call returned) - the stop acted on the
+        # dead run of a recovery, which is the in-backoff finding
+        overlapped = False
+        if found and last_id is not None:
+            ci = next((i for i, e in enumerate(log) if e["k"] == "call" and e.get("n") == last_id), None)
+            ri = next((i for i, e in enumerate(log) if e["k"] == "ret" and e.get("n") == last_id), None)
+            if ci is not None and ri is not None:
+                overlapped = any(e["k"] == "st" and e.get("a") == "Recovering" for e in log[ci:ri])
         if not found:
             for e in log[:free]:
                 if e["k"] == "ret" and e.get("b") == "nil" and e.get("a") in ("stop", "stopwait", "force"):
@@ -257,7 +267,7 @@ class C10(Prop):
             if code & (1 << bit):
                 k = "%s/%s" % (eng, name)
                 if bit == 3:
-                    k += "/" + stop_kind
+                    k = "%s/user-stop-restarted/in-backoff" % eng if overlapped else k + "/" + stop_kind
                 if bit == 7:
                     # a stopped status that was written although no stop of any kind had been asked for
                     asked = False
